@@ -85,7 +85,9 @@ func VerifSyncBlock() {
 	if height-1 > specTxActivation {
 		txh, _ := db.Begin()
 		// its source is pUSD or PEG (the asset the staking and payout code handles apart)
-		if vrt.Choose("heldSourceIsPEG", 2) == 1 {
+		// (parameter pegsource: 0 = pUSD only, 1 = either; the second doubles the paths and is used where
+		// the conversion itself is the subject, C07)
+		if vrt.Param("pegsource", 0) == 1 && vrt.Choose("heldSourceIsPEG", 2) == 1 {
 			heldSrc = fat2.PTickerPEG
 		}
 		vrtSetBalance(txh, converter, heldSrc, 5000)
